@@ -99,10 +99,19 @@ def parse_operations(
                     )
 
                 # Parse operation-specific parameters
-                params: List[IRParameter] = list(base_params)  # Start with copies of path-level params
+                op_params: List[IRParameter] = []
                 for p_param_node_raw in cast(List[Mapping[str, Any]], node_op.get("parameters", [])):
                     resolved_p_param_node = resolve_parameter_node_if_ref(p_param_node_raw, context)
-                    params.append(parse_parameter(resolved_p_param_node, context, operation_id_for_promo=operation_id))
+                    op_params.append(
+                        parse_parameter(resolved_p_param_node, context, operation_id_for_promo=operation_id)
+                    )
+
+                # An operation-level parameter overrides the path-level one with the same name and location
+                params: List[IRParameter] = [
+                    bp
+                    for bp in base_params
+                    if not any(bp.name == p.name and bp.param_in == p.param_in for p in op_params)
+                ] + op_params
 
                 # Parse request body
                 rb: IRRequestBody | None = None
